@@ -50,7 +50,7 @@ CHECKS = {
                  "tests, hidden and vendor directories, broken / ill-typed / oversize files) analysed by check (strict or not, with or without scan) or scan through the simulated "
                  "FileSystem seam inside a synctest bubble with a tape-driven worker schedule; the fault configuration injects EIO / EACCES / ENOENT / oversize / vanished-file "
                  "faults per call and unreadable directories during the walk; a third job runs single files through ProcessFile with a recording signature scanner that "
-                 "fails transiently on a tape-chosen call: every fingerprinted function must still be handed to the scanner. Non-trivial = fault-free run, or a run in which at least one fault fired; distinct = distinct "
+                 "fails transiently on a tape-chosen call: every fingerprinted function must still be handed to the scanner; half of its evaluations take the scan command's own path over the whole tree (CollectFiles + RunScanParallel) and require every declared function and method of every analysable file to reach the scanner under its own name. A file hit by a fault but reported without error must have been analysed completely. Non-trivial = fault-free run, or a run in which at least one fault fired; distinct = distinct "
                  "(tree, command, options, schedule, fired faults)."),
         "jobs": [
             {"engine": "clisim-coverage", "bin": "cli", "test": "TestVerifC16", "cfg": {"faults": "off"}, "cpu": 4, "weight": 1, "thorough_cfg": {"corpus": "150"}},
